@@ -1,6 +1,7 @@
 package c07
 
 import (
+	"bytes"
 	"context"
 	"errors"
 	"fmt"
@@ -93,14 +94,15 @@ type scen struct {
 	TCP, UDP bool
 	Local    *net.TCPAddr
 
-	Methods  []byte // SOCKS5: methods offered (the real client offers exactly one)
-	Presents bool   // the client presents credentials
-	Cred     cred
-	CredMut  string
-	HdrForm  string // HTTP raw: shape of the Proxy-Authorization line
-	Retry    int    // HTTP raw: failed attempts (wrong credentials) before the request proper
-	Cmd      byte   // SOCKS5 command
-	Hostile  bool   // raw: the script keeps talking after a step that must have failed
+	Methods   []byte // SOCKS5: methods offered (the real client offers exactly one)
+	Presents  bool   // the client presents credentials
+	Cred      cred
+	CredMut   string
+	HdrForm   string // HTTP raw: shape of the Proxy-Authorization line
+	Retry     int    // HTTP raw: failed attempts (wrong credentials) before the request proper
+	RetryBody int    // HTTP raw: every failed attempt carries a body of this many bytes (Content-Length)
+	Cmd       byte   // SOCKS5 command
+	Hostile   bool   // raw: the script keeps talking after a step that must have failed
 
 	Abort bool
 	Code  conn.DialResultCode
@@ -156,6 +158,9 @@ func (sc *scen) desc() map[string]any {
 		m["early_bytes"], m["hostile"] = sc.Early, sc.Hostile
 		if sc.Proto == pHTTP {
 			m["header_form"], m["failed_attempts_first"] = sc.HdrForm, sc.Retry
+			if sc.RetryBody > 0 {
+				m["failed_attempt_body"] = sc.RetryBody
+			}
 		}
 	} else {
 		m["initial_payload"], m["client_writes"], m["client_read_path"] = sc.Payload, sc.CData, sc.CRead
@@ -541,7 +546,13 @@ func rawScript(sc *scen) []byte {
 				bad.P += "x"
 			}
 			line, _ := authLineForm("canonical", bad)
-			b = append(b, httpConnectHead(sc.T, line, false)...)
+			head := httpConnectHead(sc.T, line, false)
+			if sc.RetryBody > 0 && bytes.HasSuffix(head, []byte("\r\n\r\n")) {
+				// the refused request carries a body; the retry follows it on the same connection
+				head = append(head[:len(head)-2], fmt.Sprintf("Content-Length: %d\r\n\r\n", sc.RetryBody)...)
+				head = append(head, bytes.Repeat([]byte{'x'}, sc.RetryBody)...)
+			}
+			b = append(b, head...)
 		}
 		line := ""
 		if sc.Presents {
